@@ -62,6 +62,7 @@ class C25(DiffProp):
                              ("F3.1", 8), ("F2.2", 8), ("F1.1", 4)]}
     budget = {"quick": 300, "thorough": 2400}
     include_negcycle = False
+    strong_shrink = True
 
     def variants(self, prog, tier):
         vs = [{"target": t, "propagate_evidence": pe} for t in ("lf", "dag") for pe in (False, True)]
@@ -121,6 +122,45 @@ class C25(DiffProp):
         if sym:
             detail += " | exported: " + " ".join(getattr(self, "_text", "").split())[:300]
         return sym, detail
+
+    def case_of(self, prog, var):
+        """Exports made with evidence propagation fail for one root cause in a great many shapes (an
+        atom fixed by propagation is written as a fact / `:- fail` while the clauses that carried the
+        information stay or go): such findings are keyed by the variant and the feature class of
+        the minimal program, with the program itself kept as example (extra)."""
+        case = super().case_of(prog, var)
+        if var.get("propagate_evidence"):
+            feats = []
+            if any(len(c["heads"]) > 1 for c in prog["clauses"]):
+                feats.append("annotated-disjunction")
+            if any((not l[0]) for c in prog["clauses"] for l in c["body"] if l[0] != "builtin"):
+                feats.append("negation")
+            if any(c["body"] and c["heads"][0][0] is not None for c in prog["clauses"]):
+                feats.append("probabilistic-rule")
+            if any(h[1] for c in prog["clauses"] for _, h in c["heads"]):
+                feats.append("first-order")
+            if any(not e[1] for e in prog.get("evidence", [])):
+                feats.append("negative-evidence")
+            return {"variant": var, "class": feats}
+        return case
+
+    def report(self, prog, var, sym, acc):
+        if not var.get("propagate_evidence") or sym.startswith("crash:"):
+            return super().report(prog, var, sym, acc)
+
+        def fails(p):
+            return self.check_case(p, var)[0] == sym
+
+        small = progcheck.minimise(prog, fails, limit=120, strong=True)
+        s_, detail, ref, dflt, out = self.check_case(small, var)
+        acc.violation(sym, self.case_of(small, var), extra={"program": program_text(small), "ast": small},
+                      expected={"kind": ref["kind"], "P(q|e)": ref["cond"], "default": dflt}, observed=out,
+                      what="%s under %s: %s [%s]" % (sym, var, program_text(small), detail))
+
+    def replay(self, case):
+        if "ast" not in case:
+            return dict(ok=True, expected=None, observed="no example stored")
+        return super().replay(case)
 
     def run_shard(self, shard, tier, acc):
         self._direct = None
